@@ -211,7 +211,8 @@ func (g *c01Gen) wrap(kind string, body []*mj.Node) []*mj.Node {
 		mid = &mj.Node{K: "try", Body: body}
 	case "catch":
 		// the failing action may be a SafeWriter whose argument fails: nothing of it may stick
-		src := []string{"noSuchVariable", "raw: noSuchVariable", `safeHtml: "<a>", noSuchVariable`, `unsafe: "<b>" + noSuchVariable`}[g.n(0, 3, "catchfail")]
+		src := []string{"noSuchVariable", "raw: noSuchVariable", `safeHtml: "<a>", noSuchVariable`, `unsafe: "<b>" + noSuchVariable`, `exec("/inc/execfail.jet")`, `includeIfExists("/inc/execfail.jet")`}[g.n(0, 5, "catchfail")]
+		failFiles(g.p)
 		mid = &mj.Node{K: "try", Body: []*mj.Node{mj.Text("LOST"), {K: "fail", Src: src, Class: "unknown-identifier"}}, HasCatch: true, Catch: body}
 	case "exec":
 		// the executed file renders values too, but none of it may reach the output
